@@ -19,6 +19,7 @@ import spydrnet as sdn
 import edif_canon as ec
 import edif_gen as eg
 import edif_mech as em
+import edif_file as ef
 
 CORPUS_DIR = os.path.join(common.CORPUS, 'edif')
 LOCAL_FINDINGS = os.path.join(CORPUS_DIR, 'known_findings_edif.json')
@@ -27,8 +28,8 @@ BUDGET = {
     # (generated oracle cases, risky share, mechanism cases, bundled size limit in bytes of the zip)
     ('C03', 'quick'): dict(cases=900, risky=0.10, mech=200, bundled=12000),
     ('C03', 'thorough'): dict(cases=6000, risky=0.12, mech=3000, bundled=None),
-    ('C05', 'quick'): dict(cases=1300, risky=0.08, mech=200, bundled=20000),
-    ('C05', 'thorough'): dict(cases=8000, risky=0.10, mech=3000, bundled=None),
+    ('C05', 'quick'): dict(cases=1300, risky=0.08, mech=200, bundled=20000, corrupt=1400, model_bundled=20000),
+    ('C05', 'thorough'): dict(cases=8000, risky=0.10, mech=3000, bundled=None, corrupt=16000, model_bundled=120000),
 }
 CALL_LIMIT = 20          # seconds per compose / parse call on generated input
 BUNDLED_LIMIT = 600      # seconds per bundled file (thorough tier)
@@ -323,15 +324,18 @@ def c05_text_case(text, expected=None, limit=CALL_LIMIT, tmp=None):
             with ec.time_limit(limit):
                 n = ec.parse_text(text, tmpdir)
         except ec.Timeout:
+            info['impl'] = ('timeout', None, None)
             return _res('parse-timeout', ['parse did not return within %d s' % limit], 'unexplained'), info
         except Exception as e:
+            info['impl'] = ('raise', type(e).__name__, None)
             return _res('reader-rejects-supported-text', ['%s: %s' % (type(e).__name__, str(e)[:200])], 'unexplained'), info
     got = ec.canon(n, identifiers=True)
     info['size'] = sum(len(L['cells']) for L in got['libraries'].values())
+    bad = ec.wf(n)
+    info['impl'] = ('ok', got, bad)
     d = ec.diff(exp_doc, got, limit=400)
     if d:
         return _res('parsed-structure-differs-from-text', d[:8], explain_c05(d, exp_doc, doc) or 'unexplained'), info
-    bad = ec.wf(n)
     if bad:
         return _res('parsed-netlist-not-well-formed', bad[:5], 'unexplained'), info
     return None, info
@@ -392,7 +396,18 @@ def explain_c05(lines, exp, doc):
                 elif k > 1:
                     f['nets-sharing-a-display-name'].append(nm)
             feats[(lk, ck)] = f
+    # libraries written AFTER the design construct: parse_design leaves parse_body on a ")" and nothing more is read
+    late = []
+    seen_design = False
+    for y in doc[2:]:
+        if ec.head(y) == 'design':
+            seen_design = True
+        elif seen_design and ec.head(y) in ('library', 'external'):
+            late.append(_dn(ec.name_of(y[1])))
     for line in lines:
+        if late and (line.startswith('/order/libraries:') or any(line == '/libraries/%s: only before' % nm for nm in late)):
+            causes.add('constructs-after-design-not-read')
+            continue
         # library level: cells sharing a display name (all but the first fall back to the identifier)
         lk = None
         for k in lib_dups:
@@ -475,7 +490,7 @@ def c05_reject_case(text, limit=CALL_LIMIT):
         except ec.Timeout:
             return _res('parse-timeout', ['parse did not return within %d s' % limit], 'unexplained'), {}
         except Exception as e:
-            return None, {'rejected_with': type(e).__name__}
+            return None, {'rejected_with': type(e).__name__, 'impl': ('raise', type(e).__name__, None)}
     top = n.top_instance
     return _res('reader-accepts-undeclared-design-reference',
                 ['top resolved to %r' % (ec._ref(top.reference) if top is not None else None)], 'unexplained'), {}
@@ -618,13 +633,55 @@ def run(prop, tier, seed, replay):
                 mech_total += n
                 mech_stats[name] = dict(st, cases=n, disagreements=len(bad))
                 mech_bad += bad
+    # ---- 3b. whole-file tie (C05): EdifFile.elab_text vs sdn.parse on valid and damaged files ----
+    tie_stats = collections.Counter()
+    tie_cases_total = [0]
+
+    def run_tie(cases, limit=10):
+        """cases through the model and the reader; disagreements join the mechanism disagreements,
+        half-built results go to the oracle failure handling"""
+        if not cases or not driver_ok:
+            return
+        with ec.TempDir() as tmp:
+            try:
+                bad, half, st = ef.tie_texts(cases, tmp, limit)
+            except Exception as e:
+                bad, half, st = [{'mechanism': 'file', 'command': 'harness', 'text': '', 'model': '', 'implementation': 'crashed: %s' % traceback.format_exc()[-400:],
+                                  'what': 'whole-file tie crashed: %s' % e}], [], {}
+        tie_stats.update(st)
+        tie_cases_total[0] += len(cases)
+        mech_bad.extend(bad)
+        for res, text, source, kind in half:
+            if res['signature'] in known_by_sig or len(rep.violations) < MAX_REPORTED:
+                handle_failure('tie-%s-%s' % (source, kind), res, {'kind': 'c05-tie-text', 'text': text, 'from': source, 'corruption': kind})
+            else:
+                stats['unreported_half_built'] += 1
+
+    if prop == 'C05' and driver_ok:
+        rngc = random.Random('%d/tie/%s' % (seed, prop))
+        sources = [('tiny', ef.TINY)]
+        for g in range(4 if tier == 'quick' else 12):
+            grng = random.Random('%d/tie/gen/%d' % (seed, g))
+            sources.append(('gen%d' % g, eg.render(eg.gen_design(grng, None, size=0.6), grng)))
+        files0, _ = ec.bundled_edif_files(common.REPO)
+        for fn, path, size in sorted(files0, key=lambda x: x[2])[:3 if tier == 'quick' else 8]:
+            sources.append((fn, ec.read_bundled(path)))
+        cases = [(t, nm, 'valid') for nm, t in sources]
+        cases += [(t, 'tiny', k) for t, k, _ in ef.exhaustive(ef.TINY)] if tier == 'thorough' else []
+        per = max(1, budget['corrupt'] // len(sources))
+        for nm, t in sources:
+            for _ in range(per if nm != 'tiny' else 2 * per):
+                ct, k, _i = ef.corrupt(rngc, t)
+                cases.append((ct, nm, k))
+        run_tie(cases)
     n_disagree += len(mech_bad)
 
     # ---- 4. the property's oracle on generated cases ----
+    tie_gen = []
     ncases = budget['cases']
     risky_kinds = eg.RISKY_C03 if prop == 'C03' else eg.RISKY_C05
     failures_seen = 0
-    deadline = t0 + (50 if tier == 'quick' else 780)
+    deadline = t0 + (55 if tier == 'quick' else 780)
     gen_done = 0
     for c in range(ncases):
         if time.time() > deadline:
@@ -639,6 +696,9 @@ def run(prop, tier, seed, replay):
                 hist['clean case had an accidental risky feature: regenerated names'] += 1
                 _neutralise(spec)
             res, info = run_c03_spec(spec)
+            if info.get('text') is not None and c % 2 == 0:
+                # what the real composer wrote, through the model reader and the real reader
+                tie_gen.append((info['text'], 'written-%d-%d' % (seed, c), 'composed:%s' % risky))
             key = common.sha(json.dumps(spec, sort_keys=True))
             ncell = sum(len(L['cells']) for L in spec['libraries'])
             hist['risky:%s' % risky] += 1
@@ -666,6 +726,8 @@ def run(prop, tier, seed, replay):
             design = eg.gen_design(rng, risky, size=rng.choice([0.6, 1.0, 1.0, 1.5]))
             rseed = '%d/%s/render/%d' % (seed, prop, c)
             res, info = run_c05_design(design, rseed)
+            if info.get('text') is not None:
+                tie_gen.append((info['text'], 'gen-%d-%d' % (seed, c), 'valid:%s' % risky, info.get('impl')))
             dj = eg.design_json(design)
             key = common.sha(json.dumps(dj, sort_keys=True, default=str))
             ncell = sum(len(L['cells']) for L in design['libraries'])
@@ -688,6 +750,11 @@ def run(prop, tier, seed, replay):
             else:
                 hist['outcome:holds'] += 1
 
+    if tie_gen:
+        nb = len(mech_bad)
+        run_tie(tie_gen)
+        n_disagree += len(mech_bad) - nb
+
     # ---- 5. bundled example files ----
     files, empty = ec.bundled_edif_files(common.REPO)
     for fn in empty:
@@ -696,10 +763,11 @@ def run(prop, tier, seed, replay):
     for fn, path, size in files:
         if budget['bundled'] is not None and size > budget['bundled']:
             continue
-        if time.time() > t0 + (57 if tier == 'quick' else 1500):
+        if time.time() > t0 + (75 if tier == 'quick' else 1500):
             notes.append('bundled file %s (%d bytes) skipped: tier time budget exhausted' % (fn, size))
             continue
         tb = time.time()
+        info = {}
         try:
             if prop == 'C03':
                 res, info = bundled_c03(path, BUNDLED_LIMIT if tier == 'thorough' else 30)
@@ -717,6 +785,11 @@ def run(prop, tier, seed, replay):
             mech_total += 1
             mech_bad += tb_bad
             n_disagree += len(tb_bad)
+            # the whole file through the model reader and the real one
+            if size <= budget['model_bundled'] and time.time() < t0 + (80 if tier == 'quick' else 2400):
+                nb = len(mech_bad)
+                run_tie([(ec.read_bundled(path), fn, 'bundled', info.get('impl') if isinstance(info, dict) else None)], limit=BUNDLED_LIMIT)
+                n_disagree += len(mech_bad) - nb
         bundled_done.append({'file': fn, 'zip_bytes': size, 'seconds': round(time.time() - tb, 2),
                              'outcome': 'holds' if res is None else res['signature']})
         distinct.add('bundled:' + fn)
@@ -734,7 +807,21 @@ def run(prop, tier, seed, replay):
             if found:
                 notes.append('correspondence disagreement in %s; property failure already reported above' % b['mechanism'])
                 continue
-            hit = search_failure(prop, seed, b['mechanism'], known_by_sig)
+            hit = None
+            if b.get('mechanism') == 'file' and b.get('text') and str(b.get('implementation', '')).startswith('ok') and prop == 'C05':
+                # the disagreeing text itself: does the property's own oracle (independent elaborator of the
+                # text vs what the reader built) fail on it?
+                try:
+                    r0, _i0 = c05_text_case(b['text'])
+                except Exception:
+                    r0 = None
+                if r0 is not None and r0['signature'] not in known_by_sig:
+                    if r0['kind'] == 'harness-cannot-read-text':
+                        r0 = dict(r0, kind='reader-accepts-text-the-independent-elaborator-cannot-give-a-meaning',
+                                  signature='reader-accepts-text-without-meaning')
+                    hit = ('tie-text-%s' % common.sha(b['text']), r0, {'kind': 'c05-text', 'text': b['text']})
+            if hit is None:
+                hit = search_failure(prop, seed, b['mechanism'], known_by_sig)
             if hit:
                 src, res, obj = hit
                 handle_failure(src, res, dict(obj, correspondence=b))
@@ -755,7 +842,7 @@ def run(prop, tier, seed, replay):
         'theorems': theorems,
         'print_assumptions': proof['assumptions'][-3000:],
         'programs': gen_done + len(bundled_done),
-        'disagreements_checked': mech_total,
+        'disagreements_checked': mech_total + tie_stats.get('compared', 0),
         'evaluations': n_eval,
         'distinct_nontrivial': len(distinct),
         'rule': ('a generated case is non-trivial if it has at least 2 cells; distinct by hash of the spec/design; '
@@ -764,6 +851,11 @@ def run(prop, tier, seed, replay):
         'generator_histogram': dict(sorted(hist.items())),
         'cells_per_case_histogram': dict(sorted(sizes.items())),
         'mechanism_correspondence': mech_stats,
+        'whole_file_tie': {'cases': tie_cases_total[0], 'compared': tie_stats.get('compared', 0), 'not_compared_unsupported': tie_stats.get('not-compared', 0),
+                           'histogram': dict(sorted(tie_stats.items())),
+                           'what': 'EdifFile.elab_text (extracted) and sdn.parse on the same text: raised <-> err, both returned -> canonical structures equal; '
+                                   'everything returned by the reader is checked for well-formedness'
+                                   + ('' if prop == 'C05' else ' (C03: the texts written by the real composer for every second generated netlist)')},
         'model_impl_disagreements': n_disagree,
         'bundled_files': bundled_done,
         'known_findings_hit': dict(known_hits),
@@ -773,9 +865,9 @@ def run(prop, tier, seed, replay):
         'explanation': EXPLANATION[prop],
     }
     common.write_evidence(prop, tier, seed, coverage, wall, len(rep.violations), ASSUMPTIONS[prop])
-    print('%s %s: %d generated + %d bundled cases, %d oracle evaluations, %d mechanism correspondence cases (%d disagreements), '
+    print('%s %s: %d generated + %d bundled cases, %d oracle evaluations, %d mechanism + %d whole-file correspondence cases (%d not compared: unsupported; %d disagreements), '
           'known findings hit %s, proof %s (%d theorems), %.1fs' % (
-              prop, tier, gen_done, len(bundled_done), n_eval, mech_total, n_disagree, dict(known_hits) or '{}',
+              prop, tier, gen_done, len(bundled_done), n_eval, mech_total, tie_stats.get('compared', 0), tie_stats.get('not-compared', 0), n_disagree, dict(known_hits) or '{}',
               'ok' if (ok and proof['ok']) else 'BROKEN', len(theorems), wall))
     return rep.exit_code()
 
@@ -873,6 +965,17 @@ def run_case_obj(prop, obj):
         return c05_text_case(obj['text'])
     if kind == 'c05-reject-text':
         return c05_reject_case(obj['text'])
+    if kind == 'c05-tie-text':
+        return ef.tie_one(obj['text']), {}
+    if kind == 'c05-tie-texts':
+        with ec.TempDir() as tmp:
+            bad, half, _st = ef.tie_texts([(t, 'corpus', k) for k, t in sorted(obj['texts'].items())], tmp, 30)
+        half = [h for h in half if h[0]['signature'] not in set(k['signature'] for k in load_findings(prop))]
+        if bad:
+            return {'kind': 'model-and-reader-disagree', 'detail': ['%s: %s' % (b['command'], b['what']) for b in bad[:4]], 'signature': 'correspondence|file'}, {}
+        if half:
+            return half[0][0], {}
+        return None, {}
     if kind == 'c03-text':
         # a netlist given as EDIF text: read it, then the write/read oracle
         with ec.TempDir() as tmp:
@@ -888,6 +991,8 @@ def run_case_obj(prop, obj):
         return run_case_file(prop, os.path.join(common.ROOT, obj['file']))
     if kind == 'correspondence-broken':
         b = obj['first_difference']
+        if b.get('mechanism') == 'file':
+            return ef.tie_one(b.get('text', '')), {}
         m = em.run_model([b['command']])[0] if b.get('command') and not b['command'].startswith('tok <') else b.get('model')
         same = (m == b.get('implementation'))
         return (None if same else {'kind': 'correspondence-broken', 'detail': [b], 'signature': 'correspondence|' + b['mechanism']}), {}
@@ -921,8 +1026,9 @@ def trusted_base(proof):
         'ocaml/driver_edif.ml (parsing of command lines, printing of answers)',
         'harness/edif_mech.py (calls the real _topological_sort, separate_name_and_index, multibit_add_cable, _output_cable_/_output_port_ref_/_output_inner_pin_, EdifTokenizer on generated inputs)',
         'harness/edif_canon.py (canonical structure, well-formedness check, independent s-expression reader and elaborator), harness/edif_gen.py (generators, independent EDIF writer)',
-        'the models (coq/theories/Fmt/EdifTopo.v, EdifLex.v, EdifName.v, EdifCable.v, EdifBus.v) are hand-written: they are tied to /repo only by the correspondence run reported in this file',
-        'the theorems cover the five mechanisms and the one-cable pipeline; the whole-file statement (C03_full / C05_full) is NOT proved: for it this file is test evidence (oracle on generated and bundled inputs)',
+        'the models (coq/theories/Fmt/EdifTopo.v, EdifLex.v, EdifName.v, EdifCable.v, EdifBus.v, EdifNets.v, EdifFile.v) are hand-written: they are tied to /repo only by the correspondence run reported in this file',
+        'harness/edif_file.py (whole-file tie: corruption generator, conversion of the model value into the canonical structure, classification of not-well-formed results)',
+        'whole-file READER (C05): Props/C05.v proves well-formedness of every result (all documents), soundness against the declarative meaning on supported documents, soundness and completeness of the per-cell cable assembly; the file-level completeness half of C05_full and the whole-file WRITER statement C03_full are NOT proved: for them this file is test evidence (oracle on generated and bundled inputs)',
         'CPython 3.12 semantics of str/list/dict/set',
     ]
 
@@ -944,7 +1050,10 @@ EXPLANATION = {
            'independent reading of the written file, well-formedness, identifiers, second round trip; on generated netlists '
            'and on bundled files.',
     'C05': 'Mechanism theorems (Props/C05.v): tokenizer/reader, bit-name splitting, multibit assembly for any order and any '
-           'subset, member indexing, one-cable read. The whole-file statement C05_full is evaluated by the oracle: abstract '
+           'subset, member indexing, one-cable read. Whole-file theorems on the reader model Fmt/EdifFile.v (elab_file, tied to '
+           'sdn.parse on valid, generated, bundled and corrupted files: whole_file_tie): every result well formed (all documents), '
+           'result = declarative meaning of the document on the supported subset (C05_full_reader_sound), per-cell cable assembly '
+           'sound and complete under nets_ok. The whole-file statement C05_full is ALSO evaluated by the oracle: abstract '
            'designs rendered by an independent writer, parsed by spydrnet, compared with the structure the text declares '
            '(derived twice: from the generator and by an independent elaborator of the text), plus well-formedness; and on '
            'bundled files against the independent elaborator.',
